@@ -1,4 +1,5 @@
 use crate::report::Unit;
+pub mod c03;
 pub mod c06;
 pub mod c07;
 pub mod c09;
@@ -16,6 +17,7 @@ pub fn units(id: &str, tier: &str) -> Option<Vec<Unit>> {
     Some(match id {
         "C01" => seqprops::c01(thorough),
         "C02" => seqprops::c02(thorough),
+        "C03" => c03::units(thorough),
         "C04" => seqprops::c04(thorough),
         "C05" => seqprops::c05(thorough),
         "C06" => c06::units(thorough),
